@@ -52,6 +52,10 @@ type Knobs struct {
 	// RealSysSQL (replication world only): the data part of the replication storage calls is the real
 	// internal/storage/system DefaultStore, its SQL interpreted by sqlmini
 	RealSysSQL bool `json:"real_sys_sql,omitempty"`
+	// SeparateWorker (replication world, real-SQL runs): the replication worker is a process of its own, as
+	// `ledger worker` is: it has its own storage driver and store factory (and so its own alone-in-bucket
+	// hints) and never sees the ledgers the API process creates except through the database.
+	SeparateWorker bool `json:"separate_worker,omitempty"`
 }
 
 type Incarnation struct {
@@ -66,6 +70,8 @@ type Incarnation struct {
 	repl    systemcontroller.ReplicationBackend
 	// realDriver: the real internal/storage/driver.Driver (real-SQL runs only, see realdriver.go)
 	realDriver *storagedriver.Driver
+	// workerDriver: the storage driver of the replication worker (realDriver itself unless Knobs.SeparateWorker)
+	workerDriver *storagedriver.Driver
 }
 
 // EventRec is one listener callback.
@@ -216,6 +222,10 @@ func (w *World) NewIncarnation(k Knobs, listener ledgercontroller.Listener, repl
 	inc.bunDB = bun.NewDB(inc.sqlDB, pgdialect.New(), bun.WithDiscardUnknownColumns())
 	if w.realSQL {
 		inc.realDriver = newRealDriver(inc)
+		inc.workerDriver = inc.realDriver
+		if k.SeparateWorker {
+			inc.workerDriver = newRealDriver(inc)
+		}
 	}
 
 	var (
